@@ -107,7 +107,7 @@ func genC15(r *Rng, e *Emitter, n int) {
 				emitF("C15.perp2", fmt.Sprintf("(%s %s %s)", sxCoord(c), sxCoord(a), sxCoord(b)), func() float64 { return xy.PerpendicularDistanceFromPointToLine(c, a, b) })
 			}
 		case 1:
-			stride := 2 + r.Intn(3)
+			stride := 2 + r.Intn(5)
 			nv := 1 + r.Intn(6)
 			long := r.chance(1, 12)
 			if long {
